@@ -108,7 +108,8 @@ def _match(known, pid, clause, ev, meta):
             if ev.get(k) != v:
                 return False
         elif k.startswith('a.'):
-            if ev.get('a', {}).get(k[2:]) != v:
+            x = ev.get('a', {}).get(k[2:])
+            if (x not in v) if isinstance(v, list) else (x != v):
                 return False
         elif k.startswith('x.'):      # extra event fields
             if ev.get(k[2:]) != v:
